@@ -193,8 +193,8 @@ def c18():
 
 # ------------------------------------------------------------------------------------------- C17
 META["C17"] = {
-    "bounds": "(a) Zones::remove / insert / closest / initialise from an arbitrary well-formed interval set of K = 0..3 intervals (thorough 4), all finite float contents |v| <= 2^20 (bit-precise IEEE-754), arbitrary finite arguments and test point",
-    "outside": "(b) limit clause and (c) resolved => separated of ShiftCollider (exact-dyadic lowering not built: see DESIGN 3.17 status); more than 4 intervals; non-finite inputs",
+    "bounds": "(a) Zones::remove / insert / closest / initialise from an arbitrary well-formed interval set of K = 0..1 intervals (bit-precise IEEE-754, |v| <= 2^20) and, thorough tier under the exact-dyadic lowering, remove K<=3 / insert K<=3 (grid 1/4, |v| <= 4096, 28 GB); (b) ShiftCollider::initSlot limit clause per axis under the exact-dyadic lowering (grid 1/16, inputs multiples of 1/2, |v| <= 32, margin 0; diagonal axes with zero accumulated offset)",
+    "outside": "(c) resolved => separated (mergeSlot); KernCollider; larger interval sets; diagonal axes with non-zero accumulated offset; resolve's cost arithmetic (inexact by nature)",
     "assumptions": ["pre-state satisfies INV_zones: x < xm, inside [_pos,_posm], sorted, disjoint"],
 }
 @prop("C17")
@@ -208,6 +208,9 @@ def c17():
             qs.append(Q(f"{e[3:]}_k{k}", "C17_zones.cpp", e, {"K": k}, unwind=k + 6,
                         unwindset={"find_exclusion_under": 5, "remove": k + 3, "insert": k + 3, "closest": k + 3, "lid:VectorINS_5Zones9Exclusion": k + 3, "erase": k + 3, "_insert_default": k + 3}, tiers=tiers, cc_defs=["LL_REALLOC_UNREACHABLE"]))
     qs.append(Q("initialise", "C17_zones.cpp", "vh_initialise", {"K": 1}, unwind=8))
+    for ax in range(4):
+        qs.append(Q(f"initslot_limit_axis{ax}", "collider.cpp", "vh_initslot", {"AXIS": ax, "ZERO_OFFSET": None} if ax >= 2 else {"AXIS": ax}, unwind=8, unwindset={"initSlot": 6, "vh_initslot": 6},
+                    dyadic=4, cc_defs=["LL_REALLOC_UNREACHABLE"]))
     # the same remove/insert lemmas under the exact-dyadic lowering (only compares, min/max and additions are involved: every obligation holds)
     for k in range(1, 4):
         for e in ("vh_remove", "vh_insert"):
